@@ -12,7 +12,8 @@ Local Open Scope Z_scope.
 Lemma size_check_ok beg e off sz :
   0 <= beg <= e -> e < 2 ^ 64 -> off + sz <= e - beg -> size_check beg e off sz = true.
 Proof.
-  intros Hb He Hle. unfold size_check. rewrite Z.mod_small by lia. apply Z.leb_le. exact Hle.
+  intros Hb He Hle. unfold size_check. rewrite Z.mod_small by lia.
+  apply andb_true_iff. split; apply Z.leb_le; lia.
 Qed.
 
 Lemma chk_size_le a : 0 <= ca_size a -> 0 <= chk_size a <= ca_size a.
